@@ -170,20 +170,9 @@ fn enum_type<'a>(input: &mut &'a [u8]) -> ModalResult<Type<'a>, InputError<&'a [
 }
 
 /// Parse an inline type (struct or enum).
-/// Determines if it's a struct by looking for ':' character.
+/// A struct's members are `name: type` pairs while an enum's are bare names.
 fn inline_type<'a>(input: &mut &'a [u8]) -> ModalResult<Type<'a>, InputError<&'a [u8]>> {
-    // Look ahead to see if this contains a colon (indicating struct)
-    if let Some(pos) = input.iter().position(|&b| b == b')') {
-        // Skip opening paren. Empty if the closing paren comes first (not an inline type).
-        let content = input.get(1..pos).unwrap_or_default();
-        if content.contains(&b':') {
-            struct_type(input)
-        } else {
-            enum_type(input)
-        }
-    } else {
-        Err(ErrMode::Backtrack(ParserError::from_input(input)))
-    }
+    alt((struct_type, enum_type)).parse_next(input)
 }
 
 /// Parse an element type (primitive, custom, or inline).
